@@ -31,7 +31,7 @@ case "$CFG" in
   *) echo "facts.sh: unknown config $CFG" >&2; exit 2 ;;
 esac
 rm -f "$OUT"
-( cd /repo && \
+( cd "${GLAM_REPO:-/repo}" && \
   CARGO_NET_OFFLINE=true \
   LD_LIBRARY_PATH="$SYS/lib" \
   RUSTFLAGS="$BASE $OVF $EXTRA" \
